@@ -675,15 +675,17 @@ pub fn run(ch: &mut Ch, verbose: bool) -> Outcome {
                 let st = &mut cs[client];
                 let mid = st.next_mid;
                 st.next_mid = st.next_mid.wrapping_add(1);
-                let mut req: CoapRequest<Ep> = CoapRequest::new();
-                req.message.header.message_id = mid;
-                match &c.ops[idx].1 {
+                // observer stubs serialise with the reference encoder (GET,
+                // Uri-Path segments, Observe 0 = empty value / 1 = one byte)
+                let observe_req = |path: &str, token: &[u8], deregister: bool| -> Vec<u8> {
+                    let mut opts: Vec<(u32, Vec<u8>)> = path.split('/').map(|sg| (11u32, sg.as_bytes().to_vec())).collect();
+                    opts.push((6, if deregister { vec![1] } else { vec![] }));
+                    crate::refparse::encode(1, 0, 0x01, mid, token, &opts, &[])
+                };
+                let bytes = match &c.ops[idx].1 {
                     Op::Register { path, token } => {
-                        req.set_method(RequestType::Get);
-                        req.set_path(&spec.paths[*path % spec.paths.len()]);
-                        req.message.set_token(token.clone());
-                        req.set_observe_flag(ObserveOption::Register);
                         st.tokens.entry(*path % spec.paths.len()).or_default().push(token.clone());
+                        observe_req(&spec.paths[*path % spec.paths.len()], token, false)
                     }
                     Op::Deregister { path, stale } => {
                         let pi = *path % spec.paths.len();
@@ -698,16 +700,11 @@ pub fn run(ch: &mut Ch, verbose: bool) -> Outcome {
                         } else {
                             toks.last().cloned().unwrap_or_default()
                         };
-                        req.set_method(RequestType::Get);
-                        req.set_path(&spec.paths[pi]);
-                        req.message.set_token(token);
-                        req.set_observe_flag(ObserveOption::Deregister);
+                        observe_req(&spec.paths[pi], &token, true)
                     }
                     Op::BogusAck { mid_mode } => {
                         w.stats.hit("fault.bogus-ack");
-                        req.message.header.set_type(MessageType::Acknowledgement);
-                        req.message.header.code = MessageClass::Empty;
-                        req.message.header.message_id = match mid_mode {
+                        let ack_mid = match mid_mode {
                             // an id nobody sent
                             0 => next_mid.wrapping_add(1000),
                             // the id of the most recent round (sent to every
@@ -716,6 +713,7 @@ pub fn run(ch: &mut Ch, verbose: bool) -> Outcome {
                             // an id seen earlier (stale)
                             _ => st.seen_mids.first().copied().unwrap_or(7),
                         };
+                        crate::refparse::encode(1, 2, 0x00, ack_mid, &[], &[], &[])
                     }
                     Op::GoSilent => {
                         st.silent = true;
@@ -726,8 +724,7 @@ pub fn run(ch: &mut Ch, verbose: bool) -> Outcome {
                         st.silent = false;
                         continue;
                     }
-                }
-                let bytes = req.message.to_bytes_unlimited().expect("encodes");
+                };
                 for d in net_send(&c.net, &bytes, ch, &mut w.stats) {
                     q.after(d.delay, Ev::ToServer { from: client, bytes: d.bytes });
                 }
@@ -907,21 +904,18 @@ pub fn run(ch: &mut Ch, verbose: bool) -> Outcome {
             Ev::ToClient { to, bytes, truth } => {
                 let c = &spec.clients[to];
                 let st = &mut cs[to];
-                let Ok(p) = Packet::from_bytes(&bytes) else { continue };
+                let Some(p) = crate::refparse::accept(&bytes) else { continue };
                 if !truth.is_notification {
                     continue;
                 }
                 // what the observer sees is what the round built
-                if p.get_token() != &truth.token[..] || p.header.message_id != truth.mid || p.payload != truth.payload || p.get_observe_value().and_then(|r| r.ok()) != Some(truth.seq) {
+                let seen_seq = p.first_opt(6).filter(|b| b.len() <= 4).map(|b| b.iter().fold(0u32, |a, x| (a << 8) | *x as u32));
+                if p.token != truth.token || p.mid != truth.mid || p.payload != truth.payload || seen_seq != Some(truth.seq) {
                     w.viol.push(Violation::new("C15", "notification", format!("observer ep{} decoded a notification that differs from what the round sent ({:?})", c.ep, truth.path)));
                 }
-                st.seen_mids.push(p.header.message_id);
+                st.seen_mids.push(p.mid);
                 if truth.con && !st.silent && ch.chance(c.ack_pm, 1000, "o.ack") {
-                    let mut ack = Packet::new();
-                    ack.header.set_type(MessageType::Acknowledgement);
-                    ack.header.code = MessageClass::Empty;
-                    ack.header.message_id = p.header.message_id;
-                    let ab = ack.to_bytes_unlimited().expect("encodes");
+                    let ab = crate::refparse::encode(1, 2, 0x00, p.mid, &[], &[], &[]);
                     for d in net_send(&c.net, &ab, ch, &mut w.stats) {
                         q.after(d.delay, Ev::ToServer { from: to, bytes: d.bytes });
                     }
